@@ -341,5 +341,7 @@ package client
 //@   ensures [handler-once] callCount(handler) == 1 && callArg(handler, 0, 1) == req && callSeq(AcquireMessage, 0) < callSeq(handler, 0)
 //@   ensures [request-released-last-unless-hijacked] callCount(IsHijacked) == 1 && callArg(IsHijacked, 0, 0) == req && (callRes(IsHijacked, 0, 0) ==> callCount(ReleaseMessage) == 1 && callSeq(IsHijacked, 0) == callsTotal() - 1) && (!callRes(IsHijacked, 0, 0) ==> callCount(ReleaseMessage) == 2 && callArg(ReleaseMessage, 1, 1) == req && callSeq(ReleaseMessage, 1) == callsTotal() - 1)
 //@   ensures [response-released-once-after-use] callArg(ReleaseMessage, 0, 1) == callRes(Message, callCount(Message) - 1, 0) && callSeq(handler, 0) < callSeq(ReleaseMessage, 0) && (called(writeMessageAsync) ==> callSeq(writeMessageAsync, 0) < callSeq(ReleaseMessage, 0)) && callSeq(ReleaseMessage, 0) < callSeq(IsHijacked, 0)
-//@   ensures [sends-only-modified] called(writeMessageAsync) ==> callArg(writeMessageAsync, 0, 1) == callRes(AcquireMessage, 0, 0)
+//@   ensures [sends-what-the-writer-holds] called(writeMessageAsync) ==> callArg(writeMessageAsync, 0, 1) == callRes(Message, 2, 0) && callRes(Message, 2, 0) == callRes(Message, 0, 0) && callSeq(handler, 0) < callSeq(Message, 0)
 //@   param handler:
+//@     modifies w.response
+//@     ensures w.response != nil
